@@ -26,6 +26,23 @@ CHECKS = {
  'C19': ('matcher', "Theorems errors_documented_tame/_flat_fwd: on Tame templates every rejection is a documented exception kind; model functions are total (structural recursion). Exception classes, stdout/stderr silence of the real code are checked by the correspondence run on all 94 types. Partial: constructor/attribute paths are covered by C04/C05 checks." + MATCHER_NOTE, 'Lean 4 theorems + differential correspondence with exception-class enum and captured output'),
 }
 
+EL_NOTE = (" The theorems are about the hand-written Lean models (Element, Values, Serialize, Parser); the real library is tied "
+           "to them by the whole-element correspondence run (generated trees, every operation result and every serialisation compared). "
+           "Known defects outside the proven region are listed in known_findings.json.")
+CHECKS.update({
+ 'C04': ('element', "Theorems setAttr_ok_iff / setAttr_error_stores_nothing / setAttr_none_removes / setAttr_stores / missingRequired_nil_iff / serialised_eq_store / normKey_idem: assignment succeeds iff the (hyphenated) name is in the type's attribute table and the value validates; errors store nothing; None removes; to_string demands required attributes; the serialised attributes are the store. Tables are tied to the schema by C03. Partial: attribute 'name' by dot (F10), namespace prefixes (F12), 7 broken tables (F9)." + EL_NOTE, 'Lean 4 theorems on the attribute-store model + differential correspondence over class x attribute x value'),
+ 'C05': ('values', "Theorems enum_accepts_iff / enum_rejects_other (enumerated types accept exactly their literals), range_exact / minExclusive_exact / minInclusive_exact (numeric facets exact at the boundaries), and kernel-evaluated negative witnesses for the open findings (bool, exponent floats, nan). Patterns are matched by the verified RE matcher on patterns translated from the library's own regexes. Partial: lexical validity of rendered floats rests on CPython's repr (trusted); F13/F14 open." + EL_NOTE, 'Lean 4 theorems on the table-driven validator model + differential correspondence on ~10^4-10^5 (type, value) pairs'),
+ 'C08': ('parser', "Theorems str_stays_str / int_stays_int / decimal_comes_back_float / value_error_propagates / ladder_result_is_valid on the parser's typing ladder; the whole-document round trip (same infoset, second round trip byte-identical) is validated by the correspondence run real parse_musicxml vs model on generated documents. float()/int() of CPython are oracles supplied to the model (trusted)." + EL_NOTE, 'Lean 4 theorems on the typing-ladder model + differential correspondence on generated documents'),
+ 'C09': ('parser', "Theorem attr_not_silently_dropped: for every attribute of every input the ladder either raises or stores the attribute under its schema name with one of the three readings of its text (holds for the code since fix ece4d7a). Acceptance of every schema-valid file is partial: it inherits the domains of C02/C04/C05; F12 (namespaced attributes), tail text and lenient numerals are open findings." + EL_NOTE, 'Lean 4 theorem (no silent attribute loss, all inputs) + differential correspondence incl. foreign spellings of documents'),
+ 'C13': ('element', "The models are functional (frame, fresh_independent); the content of the property is that the code has that structure: established by the correspondence runs (instances interleaved, model run per instance) and by the translator's inventory of class-level state - class_mutables_known / class_cells_known are re-decided on the AST of the current source every run." + EL_NOTE, 'Lean 4 frame theorems + kernel-decided inventory of shared class-level state + differential correspondence'),
+ 'C14': ('element', "Theorems copy_store_eq / copy_independent / children_rebuild (the latter: C11_rebuild - on Tame content models re-adding the children rebuilds the state); the executable deepCopy model is tied to the code by correspondence (copy, serialise both, mutate either, serialise again). Holds for the code since fix 7ac628c. Partial: children of Wild content models." + EL_NOTE, 'Lean 4 theorems + differential correspondence with post-copy mutations'),
+ 'C15': ('element', "Theorems on the decision table of e.xml_x = value (instance_replaces_or_adds, none_removes, value_sets_or_builds, unknown_name_is_attribute_error); the driver executes the decision with the explicit API operations, so agreement of the real __setattr__/__getattr__ with the model on every generated history is the stated equivalence. Partial: reserved names (F10)." + EL_NOTE, 'Lean 4 theorems on the dispatch model + differential correspondence shortcut vs explicit operations'),
+ 'C16': ('serialize', "Theorems escape_text_rt / escape_attr_rt (for ALL strings: expanding the references the escapers emit gives back the original), escaped_text_has_no_markup / escaped_attr_has_no_quote (escaped output cannot break well-formedness); determinism is functional purity of the model; byte equality of the real to_string() with the model (ET.indent + tostring port) on every generated tree and subtree, repeated calls included, is the correspondence." + EL_NOTE, 'Lean 4 theorems on the escaping functions + differential correspondence of full serialisations'),
+ 'C17': ('shapes', "Theorems write_atomic (if to_string raises the destination is untouched, any prior state), write_content (declaration + to_string, UTF-8), io_locale_independent, all instantiated by kernel evaluation on the effect list and open() sites extracted from the AST of the current source; fault injection (every node failing in turn) and a subprocess locale matrix validate the extraction. Holds since fix 529310b/3834ae9. OS-level partial writes are outside the statement.", 'Lean 4 theorems over AST-extracted effect order (translator) + fault injection + locale matrix'),
+ 'C18': ('element', "Theorems unchecked_add_total / unchecked_insertion_order / unchecked_eq_checked (valid order => same serialisation as checked, from C02_tame); per-node gating of the final checks is in the executable model and tied to the code by correspondence on trees mixing checked and unchecked nodes. Partial: byte identity inherits C02's domain." + EL_NOTE, 'Lean 4 theorems + differential correspondence on mixed checked/unchecked trees'),
+ 'C20': ('shapes', "Theorem attribute_tables_thread_safe: with the publish-after-fill shape (decided on the AST-extracted statements of both get_xsd_attributes) every thread gets the complete table for ANY number of threads and ANY schedule; class_cells_known / class_mutables_known bound the other shared class-level state; a fork-per-schedule sweep (pre-emption at every line of first use) validates on the real code. Holds since fix b6493b6. Sub-bytecode pre-emption / free-threaded builds are outside the model.", 'Lean 4 theorem over all schedules + AST-extracted shapes (translator) + systematic schedule sweep'),
+})
+
 checks = []
 for pid, (engine, text, tech) in sorted(CHECKS.items()):
     checks.append({
@@ -43,6 +60,12 @@ m = {'version': 1, 'setup_cmd': './setup.sh',
      'engines': [
          {'name': 'tables', 'path': 'extract/ lean/MxV/Gen lean/MxV/Tables', 'serves_properties': ['C03'],
           'kind_free_text': 'translator: live library + pinned XSD -> Lean tables, re-decided by the kernel every run'},
+         {'name': 'element', 'path': 'lean/MxV/Model/{Element,Values,Serialize,Parser}.lean lean/Driver.lean harness/{elements,values,parsing}.py harness/props/element_common.py',
+          'serves_properties': ['C04', 'C05', 'C08', 'C09', 'C13', 'C14', 'C15', 'C16', 'C18'],
+          'kind_free_text': 'hand-written Lean models of the attribute store, simple-type validator (table-driven), serializer (ET.indent/tostring port), parser ladders + whole-element differential correspondence'},
+         {'name': 'shapes', 'path': 'extract/shapes.py lean/MxV/Model/Shapes.lean harness/{io_checks,sched}.py',
+          'serves_properties': ['C17', 'C20'],
+          'kind_free_text': 'AST -> effect-order IR translator, generic Lean theorems instantiated by kernel evaluation, dynamic fault injection / schedule sweep'},
          {'name': 'matcher', 'path': 'lean/MxV/Model/{Msimple,MsimpleTheory,Mfull}.lean lean/Driver.lean harness/matcher.py harness/props/matcher_common.py',
           'serves_properties': ['C01', 'C02', 'C06', 'C07', 'C10', 'C11', 'C12', 'C19'],
           'kind_free_text': 'hand-written Lean models (Msimple with theorems, Mfull line-by-line port) + differential correspondence through the mxdriver line protocol'}],
